@@ -53,6 +53,7 @@ def same_locus(f, g, base, timeout_ms=10000):
 
 
 _TRS = {}      # TR cards of the deck under analysis (number -> normalised 12 entries), set by bc_problems
+_MOVED = {}    # flagged surface id -> TRCL (12 entries) of the only cell that uses it
 
 
 def card_locus(s, P, ctx):
@@ -60,6 +61,8 @@ def card_locus(s, P, ctx):
     params = [n.N(v) for v in s.params]
     if getattr(s, 'tr', None):
         P = ref.aux_point(_TRS[s.tr], P)
+    if s.id in _MOVED:
+        P = ref.aux_point(_MOVED[s.id], P)          # the card is only used by a cell with this TRCL
     mn = s.mn
     if mn[0] == 'K' and len(params) in (3, 5):
         params = params[:-1]
@@ -114,6 +117,9 @@ def bc_problems(deck, t4, base, P, ctx):
     _TRS.clear()
     for num in deck.trs:
         _TRS[num] = rf.tr_by_number(num)
+    _MOVED.clear()
+    for sid_, tr_ in getattr(deck, 'bc_moved', {}).items():
+        _MOVED[int(sid_)] = dk.norm_tr(list(tr_), False)
     pbs = []
     flagged = [s for s in deck.surfs if s.bc]
     ev_surf = {}
@@ -165,9 +171,19 @@ def bc_problems(deck, t4, base, P, ctx):
             # the property says nothing about a flagged surface that bounds no converted cell: an entry for it is
             # acceptable as long as it designates a defined surface with that locus (checked above)
             continue
-        if conv and len(matched[s.id]) != 1:
-            pbs.append(('bc-count', 'flagged surface %s%d bounds converted cell(s) %s but has %d entries' %
-                        (s.bc, s.id, conv, len(matched[s.id])), (s.id, len(matched[s.id]))))
+        if conv:
+            # cards of the same kind with this locus that bound a converted cell, and written surfaces with this locus:
+            # with de-duplication they share ONE written surface and one entry; without it every one of them keeps its
+            # own surface and entry (entries are matched by locus, so the count is taken over the whole group)
+            group = [s2 for s2 in flagged if s2.bc == s.bc and card_locus(s2, P, ctx) is not None
+                     and same_locus(card_locus(s2, P, ctx), f_s, base)
+                     and any(converted(deck, rf, c, base) for c in used_by_converted(deck, rf, s2.id))]
+            written = [sid for sid in bounding if sid in t4.surfs and same_locus(t4sem.surf_at(t4.surfs[sid], P, ctx), f_s, base)]
+            want = min(len(group), len(written))
+            got = len(set(matched[s.id]))
+            if got != want or len(matched[s.id]) != got:
+                pbs.append(('bc-count', 'flagged surface %s%d bounds converted cell(s) %s but has %d entries (%d expected)' %
+                            (s.bc, s.id, conv, len(matched[s.id]), want), (s.id, len(matched[s.id]))))
     if t4.has_bc and t4.nbc_declared != len(t4.bcs):
         pbs.append(('bc-declared', 'declared %s entries, %d written' % (t4.nbc_declared, len(t4.bcs)), None))
     return pbs
@@ -211,6 +227,25 @@ def make(task):
             flags += 1
     if not flags:
         deck.surfs[-1].bc = '*'
+    if variant == 'trcl':
+        # a flagged plane used only by a cell with a TRCL; an explicit, lower-numbered plane lies where the moved copy
+        # goes (the de-duplication merges them): the entry must sit on the written plane at the moved place
+        from ..ratfn import RatFn as _R
+        a_ = gen.V('tq')
+        t_ = Fr(rnd.choice([20, -20]))
+        kind_ = rnd.choice(['*', '+'])
+        deck = dk.Deck()
+        pre = []
+        moved_off = a_ + _R.const(t_)
+        deck.surfs = [dk.Surf(1, 'px', [a_], bc=kind_), dk.Surf(2, 'so', [Fr(10)]), dk.Surf(3, 's', [t_, Fr(0), Fr(0), Fr(10)]),
+                      dk.Surf(8, 'px', [moved_off], bc=rnd.choice(['', '', kind_]))]
+        sgn = rnd.choice([1, -1])
+        deck.cells = [dk.Cell(1, ('and', ('s', -sgn * 1), ('s', -2)), imp=1, trcl=[t_, Fr(0), Fr(0)]),
+                      dk.Cell(2, ('and', ('s', sgn * 8), ('s', -3)), imp=1),
+                      dk.Cell(3, ('s', 3), imp=0)]
+        deck.bc_moved = {1: [t_, Fr(0), Fr(0)]}
+        flg = {'skip_deduplication': (sd // 8) % 2 == 1}
+        return deck, pre, flg, variant
     if variant == 'trquad':
         # a flagged quadric (or plane) carrying a TR number, bounding the first cell
         nid = max(s_.id for s_ in deck.surfs) + 1
@@ -238,7 +273,7 @@ def make(task):
         deck.macro_body = body
     if rnd.random() < 0.5:
         rnd.shuffle(deck.surfs)          # cards need not be listed in increasing number
-    flg = {'skip_deduplication': variant == 'nodedup'}
+    flg = {'skip_deduplication': variant == 'nodedup' or (variant in ('unused', 'trquad') and (sd // 8) % 2 == 1)}
     return deck, pre, flg, variant
 
 
@@ -290,7 +325,7 @@ def run(tier):
     rep = Report(PROP, tier, 'translation_validation')
     rep.functions = FUNCTIONS
     base = seed() * 104729
-    variants = ['dedup', 'nodedup', 'dedup', 'unused', 'macro', 'dedup', 'trquad', 'trquad']
+    variants = ['dedup', 'nodedup', 'dedup', 'unused', 'macro', 'dedup', 'trquad', 'trcl']
     nd = 64 if tier == 'quick' else 1500
     tasks = [(base + i, 2 + i % 2 + (tier != 'quick') * (i % 3 == 0), 2 + i % 2, variants[i % len(variants)]) for i in range(nd)]
     for r in run_pool(worker, tasks):
